@@ -145,7 +145,7 @@ func runC17(e *Env) error {
 		}
 	})
 	c17Flags(e, viol, &mu)
-	c17AlterFlags(e, viol, &mu)
+	c17AlterFlags(e, pool, viol, &mu)
 	c17Down(e, pool, viol, &mu)
 	c17Graphs(e, viol, &mu)
 	c17PGQualified(e, viol, &mu)
@@ -517,7 +517,7 @@ func unhexS(h string) []byte {
 // (B2) the flag of an ALTER TABLE built from several changes: Reversible(plan of cs) must be the
 // conjunction of Reversible(plan of [c]) over c in cs (Lean: Props.C17.alter_flag_compositional),
 // independent of the order of cs (alter_flag_perm). The per-change bit is observed on the real planner.
-func c17AlterFlags(e *Env, viol func(kind, sig, what, chk string, rep any), mu *sync.Mutex) {
+func c17AlterFlags(e *Env, pool *hx.Pool, viol func(kind, sig, what, chk string, rep any), mu *sync.Mutex) {
 	n := 300
 	if e.Thorough() {
 		n = 5000
@@ -591,6 +591,32 @@ func c17AlterFlags(e *Env, viol func(kind, sig, what, chk string, rep any), mu *
 			}
 			return plan.Reversible, planTextRev(plan), nil
 		}
+		// the Lean table of invertible changes (Atlas.Reverse.alterInv; Props.C17.alter_reversible_iff_table) on the
+		// same change kinds
+		modelFlag := func(ks []string) (bool, bool) {
+			var kinds []string
+			for _, k := range ks {
+				switch {
+				case strings.HasPrefix(k, "add-check-unnamed"):
+					kinds = append(kinds, "add-check-unnamed")
+				case strings.HasPrefix(k, "add-check-named"):
+					kinds = append(kinds, "add-check-named")
+				case strings.HasPrefix(k, "g-drop-expr"):
+					kinds = append(kinds, "modify-column-generated")
+				case strings.HasPrefix(k, "modify-column"):
+					kinds = append(kinds, "modify-column")
+				default:
+					kinds = append(kinds, "other")
+				}
+			}
+			var ans struct {
+				Reversible bool `json:"reversible"`
+			}
+			if err := pool.AskInto(map[string]any{"op": "alter.flag", "pg": d == "postgres", "changes": kinds}, &ans); err != nil {
+				return false, false
+			}
+			return ans.Reversible, true
+		}
 		_, all := mkTable()
 		var names []string
 		for k := range all {
@@ -606,6 +632,12 @@ func c17AlterFlags(e *Env, viol func(kind, sig, what, chk string, rep any), mu *
 				continue
 			}
 			single[k] = f
+			if m, ok := modelFlag([]string{k}); ok && m != f {
+				mu.Lock()
+				e.Res.Disagree()
+				mu.Unlock()
+				viol("no-failing-input-found", "corr-alter-flag-mismatch", fmt.Sprintf("%s: a ModifyTable holding only %s is planned with Reversible=%v, the Lean table says %v", d, k, f, m), "correspondence Atlas.Reverse.alterInv", map[string]any{"dialect": d, "changes": []string{k}})
+			}
 		}
 		// a constraint the planner cannot name cannot be dropped again: adding an UNNAMED check (the server makes
 		// up its name) is never reported reversible
@@ -648,6 +680,12 @@ func c17AlterFlags(e *Env, viol func(kind, sig, what, chk string, rep any), mu *
 			mu.Lock()
 			e.Res.Count("alter-flag/"+d+"/"+strings.Join(pick, ","), !want, "alter-flags:"+d, fmt.Sprintf("alter-reversible:%v", want))
 			mu.Unlock()
+			if m, ok := modelFlag(pick); ok && m != got {
+				mu.Lock()
+				e.Res.Disagree()
+				mu.Unlock()
+				viol("no-failing-input-found", "corr-alter-flag-mismatch", fmt.Sprintf("%s: ModifyTable with changes %v is planned with Reversible=%v, the Lean table says %v", d, pick, got, m), "correspondence Atlas.Reverse.alterInv", map[string]any{"dialect": d, "changes": pick})
+			}
 			if got != want {
 				viol("failing-input", "alter-flag-not-conjunction", fmt.Sprintf("%s: ModifyTable with changes %v is planned with Reversible=%v, but planned one by one the changes are reversible=%v\n%s", d, pick, got, func() (o []string) {
 					for _, k := range pick {
